@@ -615,8 +615,10 @@ def run_check(prop, tier, seed):
         # a broken build is reported through the exploration-style keys; the proof keys must not claim anything
         cov = ev["coverage"]
         cov["obligations_in_cone"] = cov.pop("obligations"); cov["obligations_discharged"] = cov.pop("discharged")
-    os.makedirs(os.path.join(VERIF, "evidence"), exist_ok=True)
-    with open(os.path.join(VERIF, "evidence", prop.id + ".json"), "w") as f: json.dump(ev, f, indent=1, default=str)
+    # evidence/ only ever describes runs against /repo itself; runs against another tree (seeded / mutated scratch copies) write elsewhere
+    evdir = os.path.join(VERIF, "evidence") if os.path.abspath(REPO) == "/repo" else os.path.join(BUILD, "evidence-other-repo")
+    os.makedirs(evdir, exist_ok=True)
+    with open(os.path.join(evdir, prop.id + ".json"), "w") as f: json.dump(ev, f, indent=1, default=str)
     for l in lines: print(l)
     print("%s %s: %d obligations (%s), %d cases (%d through the model), %d disagreements, %d violations, %.1fs" % (
         prop.id, tier, br.obligations, "all discharged" if br.ok else "BUILD BROKEN: %s" % br.failed, len(cases), len(terms), len(disagreements), len(violations), wall))
